@@ -9,7 +9,7 @@ for P in "$SRC"/patch_*.diff; do
   echo "=== $(basename $P)" >> "$LOG"
   if ! (cd "$W" && patch -p1 -s < "$P") >/dev/null 2>&1; then echo "PATCH DOES NOT APPLY" >> "$LOG"; rm -rf "$W"; continue; fi
   cd /verif
-  for p in C01 C02 C03 C04 C05 C06 C07 C08 C09 C11 C12 C15 C10 C13 C14 C16 C18 C19; do
+  for p in C01 C02 C03 C04 C05 C06 C07 C08 C09 C11 C12 C15 C10 C13 C14 C16 C17 C18 C19; do
     out=$(CBV_REPO="$W" ./check $p 2>&1)
     if echo "$out" | grep -q "^VIOLATION"; then
       echo "$out" | tail -1 >> "$LOG"
